@@ -33,7 +33,14 @@ def _stmt_nodes(g: CFG, pred) -> List[Node]:
 
 
 def _is_aug(st: ast.AST, attr: str, op) -> bool:
-    return isinstance(st, ast.AugAssign) and _attr_is(st.target, attr) and isinstance(st.op, op)
+    """`self.<attr> += k` / `-= k` - or, when the count is kept as a collection of tokens, `self.<attr>.add(t)` (append) /
+    `.discard(t)` (remove, pop): one more / one fewer element"""
+    if isinstance(st, ast.AugAssign) and _attr_is(st.target, attr) and isinstance(st.op, op):
+        return True
+    if isinstance(st, ast.Expr) and isinstance(st.value, ast.Call) and isinstance(st.value.func, ast.Attribute) and _attr_is(st.value.func.value, attr):
+        m = st.value.func.attr
+        return m in (("add", "append") if op is ast.Add else ("discard", "remove", "pop"))
+    return False
 
 
 def _calls(st: ast.AST, dotted_suffix: str) -> bool:
@@ -362,9 +369,12 @@ def rule_A3(ctx) -> None:
     cs = channel_state(mod)
     gates = _closed_gate(g, cs)
     puts = _stmt_nodes(g, lambda s: _calls(s, "_queue.put") or _calls(s, "_queue.put_nowait"))
-    if not puts:
+    delegated = not puts and any(isinstance(c, ast.Call) and ast.unparse(c.func) == "self.send_from" for c in ast.walk(fn))
+    if not puts and not delegated:
         raise AnalysisError("send: queue.put not found")
-    if not gates:
+    if delegated:
+        ctx.proved("A3", "send:closed-gate", mod.loc(fn), "send() hands its item to send_from(), whose gate is checked below")
+    elif not gates:
         ctx.refuted("A3", "send:closed-gate", "absent", mod.loc(fn), "send() does not test `_closed` and raise ChannelClosed before putting", "ch.close(); await ch.send(x)")
     else:
         dom = g.dominators(labels=normal_edge)
@@ -772,7 +782,7 @@ def rule_A9(ctx) -> None:
                         n += 1
                         if id(c) not in awaited:
                             bad.append((mname, c, "put not awaited"))
-    ctx.floor("A9", "queue puts", n, 4)
+    ctx.floor("A9", "queue puts", n, 3)
     if bad:
         m, c, why = bad[0]
         ctx.refuted("A9", "queue-puts-awaited", ",".join(sorted({f"{m}:{w}" for m, _, w in bad})), mod.loc(c),
@@ -816,7 +826,8 @@ def rule_A10(ctx) -> None:
         pre_states = [{}]
     for w, q, st_ in [(w_, q_, s_) for w_ in range(0, 4) for q_ in range(0, 3) for s_ in pre_states]:
         if True:
-            b = {A(S, "_waiting_receivers"): w,
+            counted = any(isinstance(c_, ast.Call) and ast.unparse(c_) == "len(self._waiting_receivers)" for c_ in ast.walk(fn))
+            b = {(("call", N("len"), (A(S, "_waiting_receivers"),), ()) if counted else A(S, "_waiting_receivers")): w,
                  ("call", A(A(S, "_queue"), "qsize"), (), ()): q, ("call", A(A(S, "_queue"), "empty"), (), ()): q == 0,
                  ("call", A(A(S, "_queue"), "full"), (), ()): False}
             b.update({A(S, a_): v_ for a_, v_ in st_.items()})
